@@ -142,7 +142,10 @@ func p384Kinds() []kind {
 			o.OutBool("y-p", c.IsOnCurve(x, new(big.Int).Sub(y, p384P)))
 		}},
 		{"p384.CombinedMult", 24, 3000, func(r *lib.Rng, k int, o *rec) {
-			x, y, kk := p384Point(r, c)
+			// Q is a RANDOM multiple of G here, so mG = +-nQ cannot be met
+			// inside the loop; that family has its own op (and key) below
+			kk := r.Bytes(48)
+			x, y := c.ScalarBaseMult(kk)
 			m, n := p384Scalar(r), p384Scalar(r)
 			o.In("Q-k", kk)
 			o.In("m", m)
@@ -155,20 +158,25 @@ func p384Kinds() []kind {
 		// addition formulas of the interleaved multiplication
 		{"p384.CombinedMult:mG-eq-pm-nQ", 16, 1500, func(r *lib.Rng, k int, o *rec) {
 			q := int64(1 + r.Intn(6))
-			n := int64(1 + r.Intn(40))
+			n := big.NewInt(int64(1 + r.Intn(40)))
 			if r.Intn(4) == 0 {
-				n = int64(r.U32())
+				n = big.NewInt(int64(r.U32()))
 			}
 			x, y := c.ScalarBaseMult(big.NewInt(q).Bytes())
-			m := new(big.Int).Mul(big.NewInt(q), big.NewInt(n))
+			m := new(big.Int).Mul(big.NewInt(q), n)
 			neg := r.Bool()
 			if neg { // mG = -nQ: the sum is the point at infinity
 				m.Sub(p384N, m)
 			}
+			if r.Intn(4) == 0 { // unreduced scalars N+a, N+b
+				m.Add(m, p384N)
+				n.Add(n, p384N)
+			}
 			o.In("q", big.NewInt(q).Bytes())
-			o.In("n", big.NewInt(n).Bytes())
+			o.In("m", m.Bytes())
+			o.In("n", n.Bytes())
 			o.In("neg", []byte{b2b(neg)})
-			x2, y2 := c.CombinedMult(x, y, m.Bytes(), big.NewInt(n).Bytes())
+			x2, y2 := c.CombinedMult(x, y, m.Bytes(), n.Bytes())
 			outPt(o, "P", x2, y2)
 		}},
 	}
@@ -234,21 +242,28 @@ func fourqKinds() []kind {
 			o.Out("R", out[:])
 			o.OutBool("on", R.IsOnCurve())
 		}},
-		{"fourq.Unmarshal", 20, 2500, func(r *lib.Rng, k int, o *rec) {
+		{"fourq.Unmarshal", 150, 6000, func(r *lib.Rng, k int, o *rec) {
 			var in, out, s [32]byte
-			switch k % 3 {
+			switch k % 5 {
 			case 0: // honest encoding, sometimes damaged
 				r.Read(s[:])
 				var G fourq.Point
 				G.ScalarBaseMult(&s)
 				G.Marshal(&in)
-				if k%6 == 0 {
+				if k%10 == 0 {
 					in[r.Intn(32)] ^= 1 << uint(r.Intn(8))
 				}
 			case 1:
 				copy(in[:], r.EdgeBytes(32, 1))
+				if r.Intn(4) != 0 {
+					in[15] &= 0x7f
+				}
+			case 2, 3:
+				copy(in[:], repLimbBytes(r, 32, 1, 0xff))
+				in[15] &= 0x7f
 			default:
 				r.Read(in[:])
+				in[15] &= 0x7f
 			}
 			o.In("in", in[:])
 			var P fourq.Point
@@ -346,7 +361,7 @@ func goldilocksKinds() []kind {
 			gOut(o, "dbl", e.Double(P))
 			o.OutBool("eq", P.IsEqual(Q))
 		}},
-		{"goldilocks.FromBytes", 16, 2000, func(r *lib.Rng, k int, o *rec) {
+		{"goldilocks.FromBytes", 40, 4000, func(r *lib.Rng, k int, o *rec) {
 			var in [57]byte
 			switch k % 3 {
 			case 0:
@@ -356,7 +371,11 @@ func goldilocksKinds() []kind {
 					in[r.Intn(57)] ^= 1 << uint(r.Intn(8))
 				}
 			case 1:
-				copy(in[:], r.EdgeBytes(57, 1))
+				if r.Bool() {
+					copy(in[:], r.EdgeBytes(57, 1))
+				} else {
+					copy(in[:], repLimbBytes(r, 57, 1, 0xff))
+				}
 				in[56] &= 0x80
 			default:
 				copy(in[:56], fp448API.specials[r.Intn(len(fp448API.specials))])
@@ -372,6 +391,12 @@ func goldilocksKinds() []kind {
 			lib.Count("c14/Curves/goldilocks:frombytes-ok")
 			gOut(o, "re", P)
 			o.OutBool("on", e.IsOnCurve(P))
+			// the decoded point (any point of the curve, not necessarily of
+			// the prime-order subgroup) as the base of a multiplication
+			s := gScalar(r)
+			o.In("k", s[:])
+			gOut(o, "kP", e.ScalarMult(s, P))
+			gOut(o, "2P", e.Double(P))
 		}},
 		{"goldilocks.Scalar", 16, 2000, func(r *lib.Rng, k int, o *rec) {
 			x, y := gScalar(r), gScalar(r)
